@@ -59,6 +59,14 @@ impl Engine for LiveEngine {
         // hot runs: one worker; in half of them it owns several shards, so that the other
         // clients' keys sit in sibling shards of the busy one and must not starve behind it
         let (shards, workers) = if hot { (if c.chance(1, 2) { 1 } else { 2 + c.below(3) as usize }, 1) } else { (shards, workers) };
+        // late-failure burst (own tape): one client fills one shard to just its limit (1024
+        // entries) and stops; the passes that the writers' own triggers start all fail (nine
+        // record-write attempts = three passes, each puts a full shard's worth of entries back),
+        // then the device is healthy - only the periodic timer is left to get the shard flushed
+        let mut bt = Tape::fresh(mix(seed, 0xB7A5));
+        let burst_transient = burst && bt.chance(1, 3);
+        let (shards, workers, n_clients) = if burst_transient { (1, 1, 1) } else { (shards, workers, n_clients) };
+        let (n_keys, keys) = if burst_transient { (1030, (0..1030).map(|i| format!("lk{i:04}").into_bytes()).collect()) } else { (n_keys, keys) };
         let sim = SimConfig {
             strategy: if hot {
                 // the flusher (thread 1) is held back after every drain, see hold_sites below
@@ -105,13 +113,16 @@ impl Engine for LiveEngine {
                 if tier == "thorough" { 600 } else { 200 }
             } else if hot {
                 if ci == 0 { 9000 } else { 4 }
+            } else if burst_transient {
+                1024 + bt.below(4) as usize
             } else if burst {
                 1100 + w.below(600) as usize
             } else {
                 3 + w.below(30) as usize
             };
-            for _ in 0..n_ops {
-                let key = if hot && ci == 0 { mine[0] } else { mine[w.below(mine.len() as u32) as usize] };
+            for oi in 0..n_ops {
+                // late-failure burst: every entry a key of its own (entries of one key coalesce)
+                let key = if hot && ci == 0 { mine[0] } else if burst_transient { mine[oi % mine.len()] } else { mine[w.below(mine.len() as u32) as usize] };
                 let op = match w.below(10) {
                     _ if hot && ci == 0 => Op::Insert { key, val: Val { len: 24, kind: ValKind::Plain }, ts: Ts::Auto, ttl: 0, bytes: false },
                     0 | 1 if !burst => Op::Delete { key, ts: Ts::Auto },
@@ -143,7 +154,7 @@ impl Engine for LiveEngine {
         // while the key is overwritten and flushed; the retirement the flusher has to postpone
         // must still happen within the bound once the reader has left
         let mut r = Tape::fresh(mix(seed, 0x51EAD));
-        let slow_reader = r.chance(1, 6);
+        let slow_reader = !burst_transient && r.chance(1, 6);
         let (sim, store, keys, clients) = if slow_reader {
             let sim = SimConfig {
                 strategy: Strategy::Starve(3), // thread 3 = first client (root, worker, coordinator before it)
@@ -186,7 +197,7 @@ impl Engine for LiveEngine {
         // swept family (own tape): keys with a one-second TTL are flushed, expire and are removed
         // from memory by the background sweeper; their extents must be retired on the device too
         let mut sw = Tape::fresh(mix(seed, 0x5EE9));
-        let swept = !slow_reader && sw.chance(1, 6);
+        let swept = !slow_reader && !burst_transient && sw.chance(1, 6);
         let (sim, store, clients) = if swept {
             let sim = SimConfig {
                 strategy: match sw.below(3) {
@@ -226,14 +237,15 @@ impl Engine for LiveEngine {
         // was given up must be retried by the periodic trigger, without any further write and
         // without flush()
         let mut tr = Tape::fresh(mix(seed, 0x7A45));
-        let transient = !slow_reader && !swept && !steady && !burst && !hot && tr.chance(1, 4);
+        let transient = burst_transient || (!slow_reader && !swept && !steady && !burst && !hot && tr.chance(1, 4));
         let mut sim = sim;
         if transient {
             sim.buggify.insert("record_write".into(), 1000);
-            sim.buggify_limits.insert("record_write".into(), 3 * (1 + tr.below(2)));
+            sim.buggify_limits.insert("record_write".into(), if burst_transient { 9 } else { 3 * (1 + tr.below(2)) });
         }
         let mut knobs = BTreeMap::new();
         knobs.insert("transient".into(), transient as i64);
+        knobs.insert("burst_transient".into(), burst_transient as i64);
         knobs.insert("swept".into(), swept as i64);
         knobs.insert("slow_reader".into(), slow_reader as i64);
         knobs.insert("steady".into(), (steady && !slow_reader && !swept) as i64);
@@ -266,6 +278,9 @@ impl Engine for LiveEngine {
         let disk = env.disk.clone().unwrap();
         if sc.knob("transient", 0) == 1 {
             report.count("transient_failure_runs", 1);
+        }
+        if sc.knob("burst_transient", 0) == 1 {
+            report.count("late_failure_burst_runs", 1);
         }
         let outage_end = 0u64;
         report.count(&format!("cfg.shards{}_workers{}", store.verif_shard_counts().len(), store.verif_worker_count()), 1);
